@@ -338,6 +338,29 @@ fn make_crash(d: &mut Dec, ctx: &mut Ctx) -> Value {
            "positions": pos.iter().map(|(l, c, k)| json!([l, c, k])).collect::<Vec<_>>()})
 }
 
+/// one (text, position) through the three editor queries (libFuzzer target `fz_query`)
+pub fn fuzz_query(ctx: &mut Ctx, text: &str, line: u32, col: u32) -> Option<(String, String)> {
+    let path = qpath(ctx);
+    let off = offset_of(text, line, col);
+    let outside = off.map_or(false, |o| o > text.len() as u64);
+    let midchar = off.map_or(false, |o| o <= text.len() as u64 && !text.is_char_boundary(o as usize));
+    for q in CORE_Q.iter().copied() {
+        if outside && q.is_hover() && ctx.gated(GATE_HOVER_OUTSIDE) {
+            continue;
+        }
+        if midchar && !q.is_hover() && ctx.gated(GATE_COMPLETION_MIDCHAR) {
+            continue;
+        }
+        if let Err(pn) = run_query(q, &path, text, line, col) {
+            return Some((
+                format!("C20|panic|{}", panic_sig(&pn)),
+                format!("{}(line {line}, col {col}) panics: {} ({}:{})\n--- text\n{}", q.name(), pn.message, pn.file, pn.line, truncate_str(text, 1500)),
+            ));
+        }
+    }
+    None
+}
+
 fn judge_crash(input: &Value, ctx: &mut Ctx) -> CaseOut {
     let text = input["text"].as_str().unwrap_or("");
     let path = qpath(ctx);
